@@ -1,6 +1,6 @@
 """C07 - hybrid Rush-Larsen applies RL to exactly the stiff states and Euler to the rest."""
 from .. import core
-from . import structural
+from . import structural, tracesleg
 from .c06 import run_scheme_corpus
 
 
@@ -10,6 +10,8 @@ def main(chk: core.Check, replay):
     # batches of 12 states with a random stiff subset (plus a foreign name) per generated module
     run_scheme_corpus(chk, "C07", {"hybrid_rush_larsen", "generate"})
     structural.run(chk, "C07")
+    # emitted hybrid / generalized Rush-Larsen code of the repository's models: exponential update for exactly the stiff states
+    tracesleg.run(chk, "C07", backends=("python", "c"), schemes=("generalized_rush_larsen", "hybrid_rush_larsen"))
 
 
 if __name__ == "__main__":
